@@ -243,7 +243,8 @@ PREC = {ast.Or: 1, ast.And: 2, ast.BitOr: 5, ast.BitXor: 6, ast.BitAnd: 7, ast.L
 OPERATORS = (ast.BinOp, ast.UnaryOp, ast.BoolOp, ast.Compare, ast.IfExp)
 
 
-MECH_PRIORITY = ['one-tuple', 'cmp-chain', 'in-literal-container', 'ifexp-operand', 'ifexp-in-ifexp-head', 'same-prec-right-operand',
+SIGNATURE_PRIORITY = ['ifexp-as-arith-operand']      # the real default differs (not its printed form)
+MECH_PRIORITY = ['in-literal-container', 'neg-const-pow-base', 'one-tuple', 'cmp-chain', 'ifexp-operand', 'ifexp-in-ifexp-head', 'same-prec-right-operand',
                  'postfix-on-operator', 'attribute-of-number', 'low-prec-cmp-operand', 'low-prec-bool-operand', 'cmp-or-bool-as-arith-operand',
                  'not-as-arith-operand', 'pow-left-operand', 'pow-right-unary', 'unary-of-BinOp', 'unary-of-IfExp', 'unary-of-Compare',
                  'unary-of-BoolOp', 'complex', 'ellipsis', 'bytes', 'str-needs-escape', 'non-ascii-str', 'call']
@@ -263,6 +264,9 @@ def expr_features(src):
                 feats.add('same-prec-right-operand')
             if isinstance(n.op, ast.Pow) and isinstance(n.left, (ast.BinOp, ast.UnaryOp)):
                 feats.add('pow-left-operand')
+            if isinstance(n.op, ast.Pow) and isinstance(n.left, ast.UnaryOp) and isinstance(n.left.op, ast.USub) and \
+                    isinstance(n.left.operand, ast.Constant):
+                feats.add('neg-const-pow-base')      # "(-2) ** x": the folded literal -2 is printed without parentheses
             if isinstance(n.op, ast.Pow) and isinstance(n.right, ast.UnaryOp):
                 feats.add('pow-right-unary')
             for c in (n.left, n.right):
@@ -272,6 +276,8 @@ def expr_features(src):
                     feats.add('cmp-or-bool-as-arith-operand')
                 if isinstance(c, ast.UnaryOp) and isinstance(c.op, ast.Not):
                     feats.add('not-as-arith-operand')
+        if isinstance(n, (ast.BinOp, ast.UnaryOp)) and any(isinstance(c, ast.IfExp) for c in ast.iter_child_nodes(n)):
+            feats.add('ifexp-as-arith-operand')
         if isinstance(n, ast.UnaryOp) and isinstance(n.operand, (ast.IfExp, ast.Compare, ast.BoolOp, ast.BinOp)):
             feats.add('unary-of-' + type(n.operand).__name__)
         if isinstance(n, ast.Compare):
@@ -496,7 +502,8 @@ def main(ck):
                         # one mechanism per key: the first feature of the priority list that is present
                         plain = {x.split(':', 1)[1] for x in feats}
                         tag = 'eval-failed' if any(x.startswith('eval-failed') for x in feats) else 'value'
-                        mech = next((m for m in MECH_PRIORITY if m in plain), '+'.join(sorted(plain)))
+                        prio = (SIGNATURE_PRIORITY if aspect == 'signature' else []) + MECH_PRIORITY
+                        mech = next((m for m in prio if m in plain), '+'.join(sorted(plain)))
                         detail = 'default:%s:%s' % (tag, mech)
                         what = '%s defaults differ: %s' % (aspect, srcs)
                 elif aspect == 'doc':
